@@ -60,7 +60,7 @@ func c01Profiles(quick bool) []*bworld.Profile {
 	mixed.Starts = []bworld.StartSpec{
 		{Kind: "in", Key: "k", Max: 1}, {Kind: "out", Key: "k", Max: 1},
 		{Kind: "out", Key: "K", Max: 1}, {Kind: "in", Key: "K", Max: 1},
-		{Kind: "io", Max: 1},
+		{Kind: "io", Max: 2},
 	}
 	mixed.MaxAttempts = 3
 	mixed.Cancel = false
